@@ -189,7 +189,7 @@ def observe(chk, obs, items, kinds, extra=None, name=None, keep=None, tolerate=N
     if tolerate:
         batch["tolerate"] = sorted(tolerate)
     verdicts, res = tracecheck.observe(chk, "obs/Obs_%s.tla" % obs, "obs/Obs_%s.cfg" % obs, batch,
-                                       name=name or ("obs_" + obs), workers=6)
+                                       name=name or ("obs_" + obs), workers=6, chunk=True)
     return verdicts
 
 
